@@ -330,5 +330,32 @@ def run_c12(res, rng):
         if name == 'ASAM::CMP::CmpHeader' and b[0] != 1:
             res.violation('wire layout: default CmpHeader version is %d, documented default 1' % b[0], c.text(), True, 'judge')
     res.cov['evaluations'] += len(dcases)
-    res.cov['rule'] = ('as C11, judged against the layout table (offset, width, bit range, big-endian) for every field of every class; plus default-constructed objects of every header class: sizeof, reserved bytes zero, documented defaults. '
+    # the raw headers a Packet serialises (getRawCmpHeader / getRawMessageHeader) into a destination that already holds other data:
+    # every one of the 8 + 16 bytes is prescribed by the layout, reserved bytes are zero, for every message type
+    import gen_enc
+    from runner import correspondence
+    rcases = []
+    for i in range(120 if res.tier == 'quick' else 4000):
+        r = rng.fork('raw%d' % i)
+        p = gen_enc.gen_packet(r, r.range(1, 255), r.choice([0, 1, 8, 300]), mt=r.choice([1, 3, 255, 2, 0, 7, 0x42]))
+        p['payload'] = r.bytes(len(p['payload'])); p['kind'] = None
+        fill = r.choice([0xA5, 0xFF, 0x00, 0x5A, r.below(256)])
+        rcases.append(Case('raw%d' % i, [gen_enc.pkt_line(0, p), 'XRAWHDR 0 %d' % fill], dict(p=p)))
+    def rjudge(c, lines):
+        an = anomalies(lines)
+        if an:
+            return an[0]
+        p = c.meta['p']; mt = p['mt']
+        ident = p['ifid'] if mt == 1 else (p['vendor'] if mt in (3, 255) else 0)
+        want = bytes([p['ver'], 0]) + be(p['dev'], 2) + bytes([mt, p['stream']]) + be(p['seq'], 2) + be(p['ts'], 8) + be(ident, 4) + bytes([p['flags'], p['pt']]) + be(len(p['payload']) % 65536, 2)
+        got = [l for l in lines if l.startswith('R 0 ')]
+        if not got:
+            return 'no raw header line'
+        g = bytes.fromhex(got[0].split()[2][1:])
+        if g != want:
+            k = next(i for i in range(min(len(g), len(want))) if g[i] != want[i]) if len(g) == len(want) else -1
+            return 'raw headers of a packet (message type %d) written into a used destination: byte %d is 0x%02x, the layout prescribes 0x%02x' % (mt, k, g[k] if k >= 0 else 0, want[k] if k >= 0 else 0)
+        return None
+    correspondence(res, rcases, lambda c, lines: [l for l in lines if l.startswith('R ')], rjudge, 'wire layout of the serialised packet headers')
+    res.cov['rule'] = ('as C11, judged against the layout table (offset, width, bit range, big-endian) for every field of every class; plus default-constructed objects of every header class: sizeof, reserved bytes zero, documented defaults; plus the 24 raw header bytes Packet serialises into a pre-filled destination, for every message type. '
                        'non-trivial = distinct (method, arguments, non-zero background)')
